@@ -105,7 +105,7 @@ func SuperTriangle(points []vector2.Float64) []vector2.Float64 {
 	}
 
 	height := max.Y() - min.Y()
-	min = vector2.New(min.X(), min.Y()-2)
+	min = vector2.New(min.X(), min.Y()-height)
 
 	xMiddle := (min.X() + max.X()) / 2.
 	width := max.X() - min.X()
